@@ -27,13 +27,15 @@ CONSTANTS Handles,       \* handle ids (each owns a token while alive)
           MaxOps,        \* bound on operations per handle
           AnnounceLate,  \* mutant: announce at the end of the operation instead of the start
           SkipOneToken,  \* mutant: the release test ignores one token
-          FreeAtOnce     \* mutant: the retired list is released immediately
+          FreeAtOnce,    \* mutant: the retired list is released immediately
+          AppendPending  \* mutant: while an epoch change is pending, the waiting backlog is added to its batch
 
 VARIABLES gptr, nextObj, freed, waitToFree, toFree, mmEpoch, innerEpoch, sig,
           tok,       \* [handle -> epoch in its token]; handles not in DOMAIN have no token
-          pc, holds, cur, nops
+          pc, holds, cur, nops,
+          retAt      \* ghost: [object -> epoch at which it was handed to the manager]
 
-vars == <<gptr, nextObj, freed, waitToFree, toFree, mmEpoch, innerEpoch, sig, tok, pc, holds, cur, nops>>
+vars == <<gptr, nextObj, freed, waitToFree, toFree, mmEpoch, innerEpoch, sig, tok, pc, holds, cur, nops, retAt>>
 
 Init == /\ gptr = 0 /\ nextObj = 1 /\ freed = {} /\ waitToFree = {} /\ toFree = {}
         /\ mmEpoch = 0 /\ innerEpoch = 0 /\ sig = FALSE
@@ -42,6 +44,7 @@ Init == /\ gptr = 0 /\ nextObj = 1 /\ freed = {} /\ waitToFree = {} /\ toFree = 
         /\ holds = [h \in Handles |-> {}]
         /\ cur = [h \in Handles |-> 0]
         /\ nops = [h \in Handles |-> 0]
+        /\ retAt = <<>>
 
 Live == DOMAIN tok
 Go(h, l) == pc' = [pc EXCEPT ![h] = l]
@@ -58,9 +61,11 @@ FreeSection(o) ==
       inner1 == IF rel THEN mmEpoch ELSE innerEpoch
       sig1 == IF rel THEN FALSE ELSE sig
       hand == Cardinality(w1) > TH /\ inner1 = mmEpoch
+      append == AppendPending /\ Cardinality(w1) > TH /\ inner1 # mmEpoch
   IN /\ freed' = IF FreeAtOnce THEN freed1 \cup {o} ELSE freed1
-     /\ toFree' = IF hand THEN w1 ELSE toFree1
-     /\ waitToFree' = IF hand THEN {} ELSE w1
+     /\ toFree' = IF hand THEN w1 ELSE IF append THEN toFree1 \cup w1 ELSE toFree1
+     /\ waitToFree' = IF hand \/ append THEN {} ELSE w1
+     /\ retAt' = (o :> mmEpoch) @@ retAt
      /\ mmEpoch' = IF hand THEN mmEpoch + 1 ELSE mmEpoch
      /\ innerEpoch' = inner1
      /\ sig' = IF hand THEN TRUE ELSE sig1
@@ -72,20 +77,20 @@ OpBegin(h) == /\ pc[h] = "idle" /\ h \in Live /\ nops[h] < MaxOps
               /\ tok' = IF AnnounceLate THEN tok ELSE Announce(h)
               /\ nops' = [nops EXCEPT ![h] = @ + 1]
               /\ Go(h, "load")
-              /\ UNCHANGED <<gptr, nextObj, freed, waitToFree, toFree, mmEpoch, innerEpoch, sig, holds, cur>>
+              /\ UNCHANGED <<gptr, nextObj, freed, waitToFree, toFree, mmEpoch, innerEpoch, sig, holds, cur, retAt>>
 OpLoad(h) == /\ pc[h] = "load"
              /\ holds' = [holds EXCEPT ![h] = {gptr}] /\ cur' = [cur EXCEPT ![h] = gptr]
              /\ Go(h, "use")
-             /\ UNCHANGED <<gptr, nextObj, freed, waitToFree, toFree, mmEpoch, innerEpoch, sig, tok, nops>>
+             /\ UNCHANGED <<gptr, nextObj, freed, waitToFree, toFree, mmEpoch, innerEpoch, sig, tok, nops, retAt>>
 \* the seqlock-style re-validation: if the pointer moved, scan the new list
 OpUse(h) == /\ pc[h] = "use"
             /\ IF gptr # cur[h] THEN Go(h, "load") ELSE Go(h, "end")
-            /\ UNCHANGED <<gptr, nextObj, freed, waitToFree, toFree, mmEpoch, innerEpoch, sig, tok, holds, cur, nops>>
+            /\ UNCHANGED <<gptr, nextObj, freed, waitToFree, toFree, mmEpoch, innerEpoch, sig, tok, holds, cur, nops, retAt>>
 OpEnd(h) == /\ pc[h] = "end"
             /\ holds' = [holds EXCEPT ![h] = {}]
             /\ tok' = IF AnnounceLate THEN Announce(h) ELSE tok
             /\ Go(h, "idle")
-            /\ UNCHANGED <<gptr, nextObj, freed, waitToFree, toFree, mmEpoch, innerEpoch, sig, cur, nops>>
+            /\ UNCHANGED <<gptr, nextObj, freed, waitToFree, toFree, mmEpoch, innerEpoch, sig, cur, nops, retAt>>
 
 (* ---- add_stream / remove_reader: load, build a new list from the old one, CAS, retire the old one *)
 SwapBegin(h) == /\ pc[h] = "idle" /\ h \in Churners /\ h \in Live /\ nops[h] < MaxOps /\ nextObj <= MaxObj
@@ -93,14 +98,14 @@ SwapBegin(h) == /\ pc[h] = "idle" /\ h \in Churners /\ h \in Live /\ nops[h] < M
                 /\ nops' = [nops EXCEPT ![h] = @ + 1]
                 /\ holds' = [holds EXCEPT ![h] = {gptr}] /\ cur' = [cur EXCEPT ![h] = gptr]
                 /\ Go(h, "cas")
-                /\ UNCHANGED <<gptr, nextObj, freed, waitToFree, toFree, mmEpoch, innerEpoch, sig>>
+                /\ UNCHANGED <<gptr, nextObj, freed, waitToFree, toFree, mmEpoch, innerEpoch, sig, retAt>>
 SwapCas(h) == /\ pc[h] = "cas"
               /\ IF gptr = cur[h]
                  THEN /\ gptr' = nextObj /\ nextObj' = nextObj + 1 /\ Go(h, "retire")
                       /\ UNCHANGED <<holds, cur>>
                  ELSE /\ holds' = [holds EXCEPT ![h] = {gptr}] /\ cur' = [cur EXCEPT ![h] = gptr]
                       /\ UNCHANGED <<gptr, nextObj, pc>>
-              /\ UNCHANGED <<freed, waitToFree, toFree, mmEpoch, innerEpoch, sig, tok, nops>>
+              /\ UNCHANGED <<freed, waitToFree, toFree, mmEpoch, innerEpoch, sig, tok, nops, retAt>>
 SwapRetire(h) == /\ pc[h] = "retire"
                  /\ FreeSection(cur[h])
                  /\ holds' = [holds EXCEPT ![h] = {}]
@@ -110,7 +115,7 @@ SwapRetire(h) == /\ pc[h] = "retire"
 (* ---- a handle goes away: its token catches up and is removed (its own retirement is not modelled) *)
 DropHandle(h) == /\ pc[h] = "idle" /\ h \in Live /\ Cardinality(Live) > 1
                  /\ tok' = [g \in Live \ {h} |-> tok[g]]
-                 /\ UNCHANGED <<gptr, nextObj, freed, waitToFree, toFree, mmEpoch, innerEpoch, sig, pc, holds, cur, nops>>
+                 /\ UNCHANGED <<gptr, nextObj, freed, waitToFree, toFree, mmEpoch, innerEpoch, sig, pc, holds, cur, nops, retAt>>
 
 Step(h) == \/ OpBegin(h) \/ OpLoad(h) \/ OpUse(h) \/ OpEnd(h)
            \/ SwapBegin(h) \/ SwapCas(h) \/ SwapRetire(h) \/ DropHandle(h)
@@ -121,4 +126,7 @@ Spec == Init /\ [][Next]_vars
 NoUseAfterFree == \A h \in Handles : holds[h] \cap freed = {}
 PublishedAlive == gptr \notin freed
 NoDoubleRetire == waitToFree \cap toFree = {} /\ (waitToFree \cup toFree) \cap freed = {}
+(* the rule the harness checks on every real release (event "earlyfree"): an object is released only after an
+   epoch change that followed its hand-over *)
+ReleaseAfterBump == \A o \in freed : o \in DOMAIN retAt => retAt[o] < mmEpoch
 =============================================================================
